@@ -88,7 +88,7 @@ type Node struct {
 
 // Comp is one component file.
 type Comp struct {
-	FM    []KV   `json:"fm,omitempty"` // front-matter (string values)
+	FM    []KV   `json:"fm,omitempty"`   // front-matter (string values)
 	Wrap  bool   `json:"wrap,omitempty"` // body wrapped in a plain <template> root (docs: "The Template Tag")
 	Nodes []Node `json:"nodes"`
 }
@@ -125,8 +125,23 @@ func render(c Case) (string, error) {
 	}
 	tpl := vuego.NewFS(m, opts...)
 	var buf bytes.Buffer
-	err := tpl.Load("page.vuego").Fill(data).Render(context.Background(), &buf)
+	err := tpl.Load("page.vuego").Fill(data).Render(context.Background(), &limited{w: &buf, left: 8 << 20})
 	return buf.String(), err
+}
+
+// limited turns an output that never ends (a cyclic node list handed to the serialiser) into a
+// failure of the case instead of an exhausted machine. Expected outputs are a few KiB.
+type limited struct {
+	w    *bytes.Buffer
+	left int
+}
+
+func (l *limited) Write(p []byte) (int, error) {
+	l.left -= len(p)
+	if l.left < 0 {
+		panic("output exceeds 8 MiB: the render does not terminate")
+	}
+	return l.w.Write(p)
 }
 
 // obs is what is compared per marker.
